@@ -168,6 +168,21 @@ def _multi_file(rng, kind):
     return {"kind": "action", "pid": "act:" + "+".join(files), "files": fl, "namespace": ns, "options": {}}
 
 
+def _sensitivity_action(rng):
+    """SensitivityAction (recurrences of derivatives, or differentiated closed forms) on a program with a symbolic constant"""
+    c = corpus()["ok"]
+    # generated constants (_prob<k>) are not addressable: their names are exactly what may differ between histories
+    syms = lambda e: [x for x in e["symbols"] if not x.startswith("_")]
+    cands = sorted(p for p, e in c.items() if syms(e) and any("*" not in g for g in e["goals"]))
+    path = rng.choice(cands)
+    e = c[path]
+    v = rng.choice([g for g in e["goals"] if "*" not in g])
+    sym = rng.choice(syms(e))
+    ns = {"goals": [f"E({v})"]}
+    ns["sensitivity_analysis" if rng.random() < 0.5 else "sensitivity_analysis_diff"] = sym
+    return {"kind": "action", "pid": "sens:" + path, "files": [{"path": path}], "namespace": ns, "options": {}}
+
+
 def gen_case(seed, extra=None):
     rng = _random.Random(seed)
     tier = (extra or {}).get("tier", "quick")
@@ -185,6 +200,8 @@ def gen_case(seed, extra=None):
             s = _lib_generated(rng)
         elif r < 0.8:
             s = _lib_error(rng)
+        elif r < 0.86:
+            s = _sensitivity_action(rng)
         else:
             s = _multi_file(rng, "action")
         if s["kind"] == "lib" and s["program"].get("path") in corpus()["ok"]:
@@ -534,6 +551,7 @@ def _probes(case, wres):
     p["action_multi_file"] = 1 if any(s["kind"] == "action" and len(s["files"]) > 1 for s in case["sessions"]) else 0
     p["counter_collision_candidate"] = 1 if any(pp.get("mode") == "at_least" for o in case["ops"] for pp in o.get("pre", [])) else 0
     p["cache_shrink_world"] = 1 if case.get("world_flags", {}).get("cache_shrink") else 0
+    p["sensitivity_session"] = 1 if any(str(s.get("pid", "")).startswith("sens:") for s in case["sessions"]) else 0
     p["abandoned_or_repeated"] = 1
     return p
 
